@@ -1,5 +1,7 @@
 #!/usr/bin/env python3
-"""Import seeded changes delivered by a sub-agent (<wt>/out/<i>/{patch.diff,demo_test.go|*,meta.json}) into
+"""(needs /tmp/mut-ov/{mk.py,vmstub.go}: `mkdir -p /tmp/mut-ov && cp tools/mutov/* /tmp/mut-ov/` — the
+stub path is fixed because the agents' demo commands name it)
+Import seeded changes delivered by a sub-agent (<wt>/out/<i>/{patch.diff,demo_test.go|*,meta.json}) into
 /verif/seeded/<Cxx>-<tag><i>/ after confirming them in a fresh scratch worktree:
   the demonstration passes on the unchanged tree, fails with the patch, and the existing tests of the touched
   packages still pass with the patch.      usage: seedimport.py <agent worktree> <Cxx> [--overlay]"""
